@@ -70,14 +70,36 @@ def check_format(ctx, comp, case, got):
         ctx.fail(comp, 'J-format', case, got)
 
 
+BUFFERS = ['bytes', 'bytearray', 'memoryview', 'array', 'view_slice']
+
+
+def _as(form, b):
+    import array
+    if form == 'bytearray':
+        return bytearray(b)
+    if form == 'memoryview':
+        return memoryview(b)
+    if form == 'array':
+        return array.array('B', b)
+    if form == 'view_slice':
+        return memoryview(b'\x01\x02' + b + b'\x03')[2:-1]
+    return b
+
+
 def triple_case(ctx, case):
     from minecraft.networking import encryption
     sid, secret, key = case['server_id'], case['secret'], case['key']
     ctx.ev()
     d = hashlib.sha1(sid.encode('utf-8') + secret + key).digest()
     want = rsa.java_hex(d)
+    # 'as': the same bytes handed over as another buffer type (a slice of a
+    # received frame kept as a view, a mutable buffer): same hash
+    forms = case.get('as') or ['bytes', 'bytes']
+    if forms != ['bytes', 'bytes']:
+        ctx.label('triple_buffer_types')
     try:
-        got = encryption.generate_verification_hash(sid, secret, key)
+        got = encryption.generate_verification_hash(
+            sid, _as(forms[0], secret), _as(forms[1], key))
     except Exception as e:
         ctx.fail('triple', 'J1-raises', case, exc=e)
         return
@@ -184,6 +206,14 @@ def t_fixed(ctx):
         for s in secrets:
             for k in keys:
                 triple_case(ctx, {'server_id': i, 'secret': s, 'key': k})
+    n = 0
+    for i in ids[:4]:
+        for fa in BUFFERS:
+            for fb in BUFFERS:
+                n += 1
+                triple_case(ctx, {'server_id': i, 'secret': secrets[n % 4],
+                                  'key': keys[n % len(keys)],
+                                  'as': [fa, fb]})
 
 
 def t_search(ctx, base, budget):
@@ -226,7 +256,9 @@ def t_random(ctx, n):
                          st.sampled_from(
                              [rsa.key(1024)['der'], rsa.key(2048)['der']] +
                              sorted(rsa.key_encodings(1024).values()) +
-                             sorted(rsa.key_encodings(2048).values())))})
+                             sorted(rsa.key_encodings(2048).values()))),
+        'as': st.one_of(st.none(), st.lists(st.sampled_from(BUFFERS),
+                                            min_size=2, max_size=2))})
 
     def body(c, case):
         triple_case(c, case)
